@@ -205,6 +205,77 @@ def rule_scan_direction(ctx: Ctx):
            f"the scan stops at a paragraph token, at a special token when strings_only, and at the character budget ({stops})", node=fn, mod=hm, nontrivial=False)
 
 
+_GW: Dict[str, Any] = {}
+
+
+def _recognisable(i: int):
+    e = _GW["extractors"][i]
+    icase = bool(e["flags"] & _re.I)
+    try:
+        nfa = rx.build_nfa(e["regex"], e["flags"])
+    except Exception as ex:  # noqa: BLE001
+        return i, [("<pattern>", str(ex)[:80])], 0
+    bad = []
+    states = 0
+    lits = set()
+    for p_ in nfa.preds.values():
+        lits |= {c for c in p_.literal_chars() if not c.isascii()}
+    for s in e["strings"]:
+        alpha = rx.ASCII + sorted(lits | {c for c in s if not c.isascii()})
+        w, st = rx.find_containing(nfa, s.lower() if icase else s, alpha, lower=icase)
+        states += st
+        if w is None:
+            bad.append((s, None))
+        elif i < 3:
+            bad.append((s, w))  # keep a few witnesses as samples (not failures)
+    return i, bad, states
+
+
+def rule_recognisable(ctx: Ctx, data):
+    """R-C01-8: every reporter / law / journal spelling an extractor is
+    registered for can actually occur inside a match of that extractor's
+    pattern (language non-emptiness L(pattern) & Sigma* s Sigma*, with a
+    synthesised witness citation); R-C01-9: every spelling in reporters-db is
+    registered with some extractor."""
+    import multiprocessing as mp
+
+    tm = ctx.repo.mod("tokenizers")
+    exts = data["extractors"]
+    _GW["extractors"] = exts
+    idxs = [e["i"] for e in exts if e["strings"]]
+    n_workers = min(16, max(1, len(idxs) // 100))
+    if n_workers > 1 and not getattr(ctx, "in_selftest", False):
+        with mp.get_context("fork").Pool(n_workers) as pool:
+            res = pool.map(_recognisable, idxs, chunksize=64)
+    else:
+        res = [_recognisable(i) for i in idxs]
+    n_pairs = sum(len(exts[i]["strings"]) for i in idxs)
+    unrec = []
+    samples = []
+    states = 0
+    for i, bad, st in res:
+        states += st
+        for s, w in bad:
+            if w is None or s == "<pattern>":
+                unrec.append((exts[i]["regex"][:70], s))
+            else:
+                samples.append((s, w))
+    ctx.extra["recognisable_pairs"] = n_pairs
+    ctx.extra["recognisable_states"] = states
+    ctx.extra["recognisable_witness_samples"] = samples[:6]
+    ctx.ob("R-C01-8", "extractors/every-registered-spelling-is-matchable", not unrec and n_pairs > 5000,
+           f"for each of the {n_pairs} (extractor, spelling) pairs a string accepted by the extractor's pattern and containing the spelling was synthesised "
+           f"(regex syntax tree -> NFA x substring automaton); {len(unrec)} pairs have none{': ' + str(unrec[:3]) if unrec else ''}", mod=tm)
+    allstr = set()
+    for e in exts:
+        allstr.update(e["strings"])
+    ed_names = {x[0] for e in exts for x in e["exact"] + e["variation"]}
+    missing = [x for x in data.get("db_strings", []) if x[0] not in allstr and not (x[2] == "edition" and x[0] in ed_names)]
+    ctx.ob("R-C01-9", "reporters-db/every-spelling-has-an-extractor", not missing and len(data.get("db_strings", [])) > 3000,
+           f"each of the {len(data.get('db_strings', []))} edition names / variations / law and journal keys of the installed reporters-db is a filter string of an "
+           f"extractor (or the edition of a template that does not use $edition); missing: {missing[:5]}", mod=tm)
+
+
 def run(ctx: Ctx):
     ctx.level = "other"
     ctx.explanation = (
@@ -214,7 +285,10 @@ def run(ctx: Ctx):
         "source; R-C01-3 every m[g] / m.groups() unpack / token.groups[key] read refers to groups the linked pattern defines (all generated patterns "
         "for token.groups); R-C01-4 every X.metadata.f store and metadata= key names a declared field of the static class' Metadata; R-C01-5 each short "
         "pattern is its full sibling with `at ` before the page group and short-form extraction is chosen iff token.short; R-C01-6 forward and backward "
-        "scans of match_on_tokens anchor, grow and truncate on matching sides; R-C01-7 the current citation is appended last (parallel-cite detection).  "
+        "scans of match_on_tokens anchor, grow and truncate on matching sides; R-C01-7 the current citation is appended last (parallel-cite detection); "
+        "R-C01-8 for every (extractor, registered spelling) pair (~10,500) a string that the extractor's pattern accepts and that contains the spelling is "
+        "synthesised on the pattern syntax tree (so every edition name, variation, law and journal key is recognisable by its own extractor), and R-C01-9 "
+        "every spelling of the installed reporters-db is registered with an extractor.  "
         "NOT decided (the bulk of C01): that each of the ~3,900 reporter strings is matched with the right span and group contents, that the metadata "
         "regexes capture the written components, span arithmetic -- statements about which strings a regex matches and about integer values."
     )
@@ -232,6 +306,7 @@ def run(ctx: Ctx):
     ctx.guard(C.t9_metadata_keys)
     ctx.guard(rule_short_pairing, ctx, data)
     ctx.guard(rule_scan_direction, ctx)
+    ctx.guard(rule_recognisable, ctx, data)
     ctx.guard(rule_append_order, ctx, "R-C01-7")
     ctx.floor("R-C01-1", 6)
     ctx.floor("R-C01-3", 30)
